@@ -1,0 +1,1 @@
+//! gate rig (verification scaffolding, cfg(rustdds_verif))
